@@ -80,6 +80,11 @@ func (c CreateProposal) Validate(ctx *action.Context, signedTx action.SignedTx) 
 		return false, governance.ErrInvalidProposalDesc
 	}
 
+	// the funding goal is an optional part of the payload; it is dereferenced when the proposal is run
+	if createProposal.FundingGoal == nil {
+		return false, governance.ErrInvalidFundingGoal
+	}
+
 	return true, nil
 }
 
